@@ -390,7 +390,10 @@ PROPS = {
                 "rounds-to-zero, 1e-8..1e17, group borders, >13 decimals; every --digits -3..10 and more, -k on/off), table (balance-shaped tables: groups (1,n),(1,1,n),random; "
                 "separator/empty/header/name-only/data rows, FillEmpty, multi-byte and awkward names incl. CSV specials), malformed (short/long/empty rows, zero-width tables, "
                 "negative indents, line breaks: panic outcomes and bytes compared, line monitor skipped), directed (single amounts around disagreeing cases x all digits x -k), "
-                "balance (knut balance --color=false [-k] --digits n vs --csv on generated journals), paced (reports of 30-2000 (thorough: 3500) booked accounts, 4 KiB-1 MiB of text, "
+                "balance (knut balance --color=false [-k] --digits n vs --csv on generated journals of one day to three years; flag vectors stratified over every interval flag "
+                "(none, --once, --days, --weeks, --months, --quarters, --years) x --last absent/0/-1/1/2/3/P-1/P/P+1/12/1000 (P = periods of the span), with --from/--to absent, one-sided, "
+                "inside, covering, overlapping, outside, inverted, one day, a few intervals long, and --diff, -a, -v with and without -s, -s alone, -m, --account, --commodity; "
+                "a report whose table cannot be rebuilt from the CSV is still given to rectLines/alignedOK), paced (reports of 30-2000 (thorough: 3500) booked accounts, 4 KiB-1 MiB of text, "
                 "read from knut's standard output by consumers that start late, stop in the middle, read slowly, in tiny pieces or in bursts, through pipes of 4 KiB-1 MiB capacity, or into a file: "
                 "every consumer must receive the model's rendering and text/CSV satisfying textOK/csvTextOK). Each case: text and CSV bytes compared with the model, textOK "
                 "(rectLines, alignedOK, conformsAll with widths read off the real output) and csvTextOK evaluated by the Lean driver on the real output. "
